@@ -404,3 +404,20 @@ def l9(ctx):
     from .c06 import u4
     from .c03 import p2
     return list(u4(ctx)) + [o for o in p2(ctx) if "DeleteMethod" in o.construct or "delete_member" in o.construct]
+
+
+@rule("C05", "L10", floor=5, kind="N",
+      desc="a writer that fails inside the critical section leaves the index as it found it: the index lock is aborted, not "
+           "committed, on the error path (same obligations as C04/B3) - two overlapping deletes otherwise install an empty "
+           "index and every other member of the collection is lost")
+def l10(ctx):
+    from .c04 import b3
+    return b3(ctx)
+
+
+@rule("C05", "L11", floor=2, kind="N",
+      desc="two workers on one directory never end up with two holders of a UID: the scan overwrites the reverse-map entry "
+           "with the current holder (same obligations as C06/U14) - insert-if-absent keeps the holder another worker replaced")
+def l11(ctx):
+    from .c06 import u14
+    return u14(ctx)
